@@ -15,8 +15,12 @@ def import_stl(path : str):
     if is_stl_ascii(path):
         return _import_stl_ascii(path)
     else:
-        vertices, faces =  stl_reader.read(path)
         out = RawMeshData()
+        with open(path, 'rb') as f:
+            header = f.read(84)
+        if len(header)==84 and struct.unpack("<I", header[80:84])[0]==0:
+            return out # no facet : stl_reader aborts the interpreter on such a file
+        vertices, faces =  stl_reader.read(path)
         out.vertices += list(vertices)
         out.faces += list(faces)
         return out
